@@ -33,6 +33,14 @@ CHECKS = {
    text="In every reachable state (after fills, replenishments, amends) each of the seven rebuild paths is executed for every permutation of the pre-sort listing (ties), and each constructor is fed aggregate fields that disagree with the orders; rebuilt content, derived aggregates and the timestamp-sorted duplicate-free listing are checked.",
    note="as C01",
    tech="explicit-state BFS on the implementation, per-state rebuild matrix (paths x tie permutations x foreign aggregates)"),
+ "C11": dict(engine="seqmc", cat="model_checking", ref="5 (C11)",
+   text="In every state reachable in SC-order (ties, non-monotone timestamps, re-queued / replenished / amended orders) the level is restored through each of the four snapshot paths for every permutation of tied listing entries, and the original (replayed), the restored level and a fresh level re-adding the listed orders in listed order are driven through every continuation of length <= 2 over {match 1,2,4,1000; cancel #1..#3} plus a draining match. restored == re-added always; original == restored unless the original's queue order is not the strict timestamp order (KF3) or holds stale tickets (KF2).",
+   note="differential on the real code only; classification uses the hook's ticket mirror; known findings listed in KNOWN_FINDINGS.txt",
+   tech="explicit-state BFS on the implementation, three-way differential (original / restored / re-added) over all continuations"),
+ "C19": dict(engine="seqmc", cat="model_checking", ref="5 (C19)",
+   text="All sequences over push / pop / remove / find / len / is_empty / to_vec on a real OrderQueue (3 ids, re-push after removal allowed) up to the reported depth against a FIFO-with-removal model (result, content, len, is_empty, pop order of a final drain); text / JSON / from_vec / From<Vec> forms rebuilt in every new state; all lists of <= 3 orders in every permutation through the four constructors. The stale-ticket deviation is the open known finding KF2.",
+   note="3 ids; known finding KF2 listed in KNOWN_FINDINGS.txt",
+   tech="explicit-state BFS on the real OrderQueue vs FIFO reference model with a known-deviation variant"),
  "C15": dict(engine="seqmc", cat="model_checking", ref="5 (C15)",
    text="Sequential half: all histories with positive quantities, statistics counters in the state key; after every transition the four counters must equal the events derived from the implementation's own return values.",
    note="concurrent half is added by engine C; orders carry the level's price (the property's premise)",
